@@ -252,6 +252,63 @@ def antisense_dataset(seed, n_chroms=2, loci_per_chrom=4, reads_per_tx=5, lower_
     return ds, truth
 
 
+def strand_evidence_dataset(seed):
+    """crafted novel loci for the strand clause of C18 (audit-2 G-C18-3): unannotated 3-4-exon loci, 8 identical reads each,
+      * uninformative splice sites + polyT / polyA tails            -> the tail decides
+      * sites of one strand + the tail of the other                  -> the sites decide (if the model is reported at all)
+      * a 1:1 tie of the sites + polyA / polyT                       -> the tail decides
+      * a 1:1 tie without tails                                      -> nothing is demanded
+      * 2 sites against 1 + the tail of the minority                 -> the majority of the sites
+    plus one annotated gene far away (so that runs with --genedb work).
+    -> (dataset, truth) with truth["strand_loci"] = [{chr, kind, exons, pairs, polya, polyt, expected, by}]"""
+    ds = synth.Dataset(seed)
+    rng = ds.rng
+    kinds = [("uninf_polyT", "nn", 0, 25, "-", "tail"), ("uninf_polyA", "nn", 25, 0, "+", "tail"),
+             ("plus_sites_polyT", "ff", 0, 25, "+", "sites"), ("minus_sites_polyA", "rr", 25, 0, "-", "sites"),
+             ("tie_polyA", "fr", 25, 0, "+", "tail"), ("tie_polyT", "rf", 0, 25, "-", "tail"),
+             ("tie_notail", "fr", 0, 0, None, None), ("2plus1minus_polyT", "ffr", 0, 25, "+", "sites"),
+             ("2minus1plus_polyA", "rfr", 25, 0, "-", "sites")]
+    rng.shuffle(kinds)
+    loci, pos = [], rng.randint(900, 1500)
+    for name, pat, pa, pt, exp, by in kinds:
+        exons, end = _exons_from(rng, pos, len(pat) + 1, exon_len=(150, 260), intron_len=(300, 600))
+        loci.append((name, pat, pa, pt, exp, by, exons))
+        pos = end + rng.randint(1500, 2500)
+    g_ex, end = _exons_from(rng, pos + 3000, 3)
+    # a gene ANNOTATED with strand '.' (legal GTF) whose introns are canonical on one strand: its reads and its transcript model
+    # are reported with strand '.' (audit-2 C11-G3: the flag was looked up as for '-')
+    d_loci = []
+    for d_strand in "+-":
+        d_ex, end = _exons_from(rng, end + 3000, 3)
+        d_loci.append((d_strand, d_ex))
+    ds.add_chrom("chr1", end + 1500)
+    ds.add_gene("chr1", "G0", "+", [("G0_t", g_ex)])
+    for k in range(4):
+        ds.read_from_exons("r_G0_%d" % k, "chr1", g_ex, polya=25)
+    for d_strand, d_ex in d_loci:
+        nm = "Gdot" + ("p" if d_strand == "+" else "m")
+        ds.add_gene("chr1", nm, ".", [(nm + "_t", d_ex)], plant=False)
+        ds.plant_sites("chr1", introns_of(d_ex), d_strand)
+        for k in range(5):
+            ds.read_from_exons("r_%s_%d" % (nm, k), "chr1", d_ex, polya=25 if (k < 2 and d_strand == "+") else 0,
+                               polyt=25 if (k < 2 and d_strand == "-") else 0)
+    truth = {"strand_loci": []}
+    uninformative = [p for p in NEAR_MISS if p not in FWD_PAIRS and p not in REV_PAIRS]
+    for name, pat, pa, pt, exp, by, exons in loci:
+        seq = ds.chroms["chr1"]
+        pairs = []
+        for it, c in zip(introns_of(exons), pat):
+            pair = rng.choice(FWD_PAIRS) if c == "f" else (rng.choice(REV_PAIRS) if c == "r" else rng.choice(uninformative))
+            pairs.append(list(pair))
+            seq = plant(seq, it, pair)
+        ds.chroms["chr1"] = seq
+        for k in range(8):
+            ds.read_from_exons("r_%s_%d" % (name, k), "chr1", exons, polya=pa, polyt=pt)
+        truth["strand_loci"].append({"chr": "chr1", "kind": name, "exons": exons, "pairs": pairs, "polya": pa, "polyt": pt,
+                                     "expected": exp, "by": by})
+    return ds, truth
+
+
 # ------------------------------------------------------------------------------------------------
 # printed attribute lists of transcript lines (C18 canonical_attr_unique)
 
